@@ -42,6 +42,7 @@ func runC12(p *Prog, r *Report) {
 	c12RuneErrorWidth(p, r)
 	c12ZoneDropped(p, r)
 	prefixBitsVsConstant(p, r, "R12.8-family-dependent-host-test")
+	c12QuoteStripping(p, r, "R12.9-quote-unwrapping")
 }
 
 // R12.7: netip.ParseAddr accepts a zoned IPv6 address ("fe80::1%eth0"); netip.PrefixFrom silently drops the zone. A
@@ -839,3 +840,43 @@ func prefixBitsVsConstant(p *Prog, r *Report, rule string) {
 		r.Undec(rule, "types:single-host-tests", "-", "no single-host test (Prefix.Bits() == …) found in package types (anchor vanished)")
 	}
 }
+
+// R12.9: a quoted literal is unwrapped by removing exactly one quote at each end (slicing, TrimPrefix/TrimSuffix).
+// strings.Trim/TrimLeft/TrimRight with a cutset that contains the quote removes *every* leading or trailing quote, so a
+// value whose text ends in an (escaped) quote — `T::"a\""` — loses part of its own content and no longer parses.
+func c12QuoteStripping(p *Prog, r *Report, rule string) {
+	n := 0
+	for _, fn := range p.Funcs {
+		pp := fnPkgPath(fn)
+		if pp != pTypes && pp != pParser && pp != pRust && pp != pSchemaPar {
+			continue
+		}
+		for _, cl := range callsIn(fn) {
+			f := cl.Common().StaticCallee()
+			if f == nil || (fnPkgPath(f) != "strings" && fnPkgPath(f) != "bytes") {
+				continue
+			}
+			switch f.Name() {
+			case "TrimPrefix", "TrimSuffix", "CutPrefix", "CutSuffix":
+				if len(cl.Common().Args) == 2 {
+					if s, ok := constString(cl.Common().Args[1]); ok && strings.Contains(s, `"`) {
+						n++
+						r.OK(rule, fnQual(fn)+":"+f.Name(), p.pos(cl.Pos()), "one quote is removed from one end")
+					}
+				}
+			case "Trim", "TrimLeft", "TrimRight":
+				if len(cl.Common().Args) == 2 {
+					if s, ok := constString(cl.Common().Args[1]); ok && strings.Contains(s, `"`) {
+						n++
+						r.Viol(rule, fnQual(fn)+":"+f.Name(), p.pos(cl.Pos()), fnShort(fn)+" unwraps a quoted literal with strings."+f.Name()+"(…, "+strconvQuote(s)+"), which strips every leading/trailing quote character: a value whose text ends in an escaped quote loses it and its printed form no longer parses back")
+					}
+				}
+			}
+		}
+	}
+	if n == 0 {
+		r.Undec(rule, "quote-unwrapping", "-", "no quote-unwrapping call found in the text codecs (anchors vanished)")
+	}
+}
+
+func strconvQuote(s string) string { return "`" + s + "`" }
